@@ -15,6 +15,11 @@ pub fn run(id: &str, tier: &str) -> i32 {
     let rep = Report::new(id, tier);
     match id {
         "C01" | "C02" | "C03" | "C04" | "C09" | "C11" | "C14" | "C16" | "C19" => run_e1(&rep),
+        "C15" => crate::e6::run(&rep),
+        "C17" => crate::e5::run(&rep),
+        "C12" => crate::e4::run_c12(&rep),
+        "C13" => crate::e4::run_c13(&rep),
+        "C20" => crate::e4::run_c20(&rep),
         "C05" => crate::e3::run_c05(&rep),
         "C06" => crate::e3::run_c06(&rep),
         "C10" => crate::e3::run_c10(&rep),
@@ -59,6 +64,11 @@ pub fn replay(path: &str) -> i32 {
         "table" => e1run::replay_table(&case),
         "io" => crate::e2::replay(&case.clone().set("property", J::s(j.str_of("property")))),
         "packed" => crate::e3::replay_packed(&case),
+        "guard" | "guard-crash" => crate::e6::replay(&case),
+        "sched" => crate::e5::replay(&case),
+        "c12" => crate::e4::replay_c12(&case),
+        "c13" => crate::e4::replay_c13(&case),
+        "c20" => crate::e4::replay_c20(&case),
         "acdiff" => crate::e3::replay_acdiff(&case),
         "hang" => {
             println!("re-running the whole check at tier {} (the recorded case was a work item that made no progress: {})", case.str_of("tier"), case.str_of("item_desc"));
@@ -321,7 +331,7 @@ fn run_e1(rep: &Report) -> i32 {
             crate::e1::STATE_CAP, o.layer2_cap, o.layer2_budget, o.span_len, if t { "U2+Uedge+Uadv" } else { "U1+Uedge+Uadv" }
         )))
         .set("design_ref", J::s(design));
-    if states == 0 || transitions == 0 {
+    if (states == 0 || transitions == 0) && rep.nviol() == 0 {
         rep.machinery("vacuous run: no state explored".into());
     }
     rep.finish("model_checking", cov, &assumptions)
